@@ -344,6 +344,16 @@ class TreeLikelihoodModel(CallableModel):
                 bls = self.clock_model.rates * branch_lengths
 
         mats = self.subst_model.p_t(bls.reshape(sample_shape + (-1, 1)) * rates)
+        # a category that does not evolve (invariant sites) has P(0) = I exactly:
+        # the rounding error of an eigendecomposition (~1e-16 off the diagonal)
+        # would otherwise swamp small site likelihoods
+        zero_rate = rates == 0.0
+        if torch.any(zero_rate):
+            mats = torch.where(
+                zero_rate.unsqueeze(-1).unsqueeze(-1),
+                torch.eye(mats.shape[-1], dtype=mats.dtype, device=mats.device),
+                mats,
+            )
         frequencies = self.subst_model.frequencies.reshape(
             self.subst_model.frequencies.shape[:-1] + (1, -1)
         )
